@@ -58,7 +58,6 @@ type blkSched struct {
 	CWT       int       `json:"cwt"`
 	PeerDied  bool      `json:"peer_died"` // session close = the peer disappeared (onRemoteClose) instead of Close()
 	Cb        bool      `json:"cb"`        // callback mode: the read under test is done by OnData in the callback goroutine
-	KnownCb   bool      `json:"known_cb"`  // finding callback-close-leaves-reader-blocked is listed
 	Eager     bool      `json:"eager"`     // a reader woken by an event runs on at once (until it blocks or returns)
 }
 
@@ -91,6 +90,7 @@ type blkRun struct {
 	Timing   string     `json:"timing"` // "" or why the real-time staging of this schedule was not valid (retried)
 	Attempts int        `json:"attempts"`
 	Skipped  int        `json:"skipped"`
+	WallMs   int64      `json:"wall_ms"`
 	Eos      string     `json:"eos_with_data"` // C07 observation: end-of-stream reported over delivered, unread data
 }
 
@@ -167,6 +167,19 @@ func blkStatus(gid int64) (string, string) {
 				end = len(rest)
 			}
 			return st, rest[:end]
+		}
+		blkStackBuf = make([]byte, 2*len(blkStackBuf))
+	}
+}
+
+// blkAnyGoroutineIn: is any goroutine executing (or blocked under) a function whose name contains fn?
+func blkAnyGoroutineIn(fn string) bool {
+	blkStackMu.Lock()
+	defer blkStackMu.Unlock()
+	for {
+		n := runtime.Stack(blkStackBuf, true)
+		if n < len(blkStackBuf) {
+			return strings.Contains(string(blkStackBuf[:n]), fn)
 		}
 		blkStackBuf = make([]byte, 2*len(blkStackBuf))
 	}
@@ -447,6 +460,7 @@ type blkReadWorld struct {
 	accounted bool
 	cbRead    bool // callback mode: OnData's read has returned
 	cbCalls   int32
+	tearing   int32
 	cbClosed  bool // callback mode: a local Close was deferred (CloseCb) in this run
 	cbKnown   int
 	eosDetail string
@@ -559,9 +573,6 @@ func (w *blkReadWorld) checkBlocked() {
 					"Stream.Close() from another goroutine returned nil: stream state %s, closeNotifyCh not closed; steps %s",
 					w.sc.Name, w.sc.Need, st, blkStateName(w.bs.getStreamState()), js)
 			}
-			if w.sc.KnownCb {
-				return
-			}
 			why = "Stream.Close() was called by another goroutine (callback mode: only deferred, the stream is " +
 				blkStateName(w.bs.getStreamState()) + ", no close notification)"
 		}
@@ -607,7 +618,7 @@ func (w *blkReadWorld) checkReturn() {
 		if st == uint32(streamOpened) && !blkClosed(w.bs.closeNotifyCh) && w.sess == "up" {
 			w.fail("error-without-cause", "ReadBytes returned "+w.lastRes+" on an open stream of a live session")
 		}
-		if w.lastRes == "eos" && w.peerCl && w.pendBytes()+w.bs.recvBuf.len >= w.sc.Need {
+		if w.lastRes == "eos" && w.peerCl && w.cpc == "idle" && w.pendBytes()+w.bs.recvBuf.len >= w.sc.Need {
 			w.res.EosWithData++
 			b, _ := json.Marshal(w.sc.Steps[:w.at+1])
 			w.eosDetail = fmt.Sprintf("ReadBytes(%d) returned ErrEndOfStream although %d bytes flushed by the peer before it closed had been "+
@@ -676,7 +687,8 @@ type blkCallbacks struct{ w *blkReadWorld }
 
 func (c *blkCallbacks) OnData(r BufferReader) {
 	w := c.w
-	if atomic.AddInt32(&w.cbCalls, 1) > 1 {
+	if atomic.LoadInt32(&w.tearing) == 1 || w.R == nil || atomic.AddInt32(&w.cbCalls, 1) > 1 {
+		// not the read under test (later calls; a callback goroutine started by a deliverer that the teardown let go)
 		r.Discard(r.Len())
 		return
 	}
@@ -718,6 +730,7 @@ func (w *blkReadWorld) setDeadline(i int) {
 }
 
 func (w *blkReadWorld) teardown() {
+	atomic.StoreInt32(&w.tearing, 1)
 	vsReset(vsOff) // releases nothing by itself: release every gate first
 	for _, th := range []*blkThr{w.R, w.D, w.C} {
 		if th != nil && th.gate != nil {
@@ -730,21 +743,22 @@ func (w *blkReadWorld) teardown() {
 	}
 	for _, th := range []*blkThr{w.R, w.D, w.C} {
 		if th != nil {
-			select {
-			case <-th.done:
-			case <-time.After(w.bound):
+			for t0 := time.Now(); !th.finished() && time.Since(t0) < w.bound; {
+				time.Sleep(200 * time.Microsecond)
 			}
 		}
 	}
 	alive := false
 	if w.sc.Cb && w.bs != nil {
-		// the callback goroutine still works on the stream after OnData returned: never unmap under it
-		wg := make(chan struct{})
-		go func() { w.bs.asyncGoroutineWg.Wait(); close(wg) }()
-		select {
-		case <-wg:
-		case <-time.After(w.bound):
-			alive = true
+		// the callback goroutine still works on the stream after OnData returned (further OnData calls, the deferred close -
+		// which runs AFTER asyncGoroutineWg.Done()): never unmap under it, wait until no goroutine is inside its closure
+		alive = true
+		for t0 := time.Now(); time.Since(t0) < w.bound; {
+			if !blkAnyGoroutineIn("fillDataToReadBuffer.func") {
+				alive = false
+				break
+			}
+			time.Sleep(300 * time.Microsecond)
 		}
 	}
 	if w.pair != nil && !alive {
@@ -907,7 +921,23 @@ func (w *blkReadWorld) step(i int, s blkStep) (skipped bool, timing string) {
 			}
 			labels := []string{blkLblMove, blkLblState, blkLblSel}
 			gates := []*vsGateT{vsGateArm(blkLblMove, 1), vsGateArm(blkLblState, 1), vsGateArm(blkLblSel, 1)}
-			w.advance(w.D, nil)
+			if w.D.gate != nil {
+				g := w.D.gate
+				w.D.gate, w.D.kind = nil, ""
+				g.releaseGate()
+			}
+			// the deliverer itself may load the stream state again before it starts the goroutine (commit e3f8d7e): a hit of
+			// the state gate while the deliverer is still running and nobody reached moveTo is the deliverer's - let it pass
+			t0 := time.Now()
+			for !w.D.finished() && time.Since(t0) < w.bound {
+				select {
+				case <-gates[1].hit:
+					gates[1].releaseGate()
+					gates[1] = vsGateArm(blkLblState, 1)
+				default:
+					time.Sleep(50 * time.Microsecond)
+				}
+			}
 			w.waitThr(w.R, gates, labels)
 			for _, g := range gates {
 				if g != w.R.gate {
@@ -1064,6 +1094,11 @@ func blkRunRead(job *blkJob, sc *blkSched, res *blkResult) blkRun {
 				break // callback mode: the behaviour ends with the read
 			}
 		}
+		if sc.Cb && w.R != nil && w.R.finished() && w.R.gate != nil {
+			// the gate caught the callback goroutine on its way on after OnData: not part of the read
+			w.R.gate.releaseGate()
+			w.R.gate, w.R.kind = nil, ""
+		}
 		if w.viol == nil && w.inc == "" && run.Timing == "" && w.R != nil && w.R.gate != nil {
 			// let a reader parked at a gate run on: it must return or block legitimately
 			for k := 0; k < 12 && w.R.gate != nil; k++ {
@@ -1119,6 +1154,7 @@ func TestVS_Blocking(t *testing.T) {
 	}()
 	for i := range job.Schedules {
 		sc := &job.Schedules[i]
+		t0 := time.Now()
 		switch sc.Mode {
 		case "read":
 			res.Runs = append(res.Runs, blkRunRead(&job, sc, res))
@@ -1130,6 +1166,9 @@ func TestVS_Blocking(t *testing.T) {
 			res.Runs = append(res.Runs, blkRunSend(&job, sc, res))
 		case "init":
 			res.Runs = append(res.Runs, blkRunInit(&job, sc, res))
+		}
+		if n := len(res.Runs); n > 0 {
+			res.Runs[n-1].WallMs = time.Since(t0).Milliseconds()
 		}
 		if len(res.Violations) >= 5 {
 			break
